@@ -170,7 +170,9 @@ def judge(ctx, camp, verdicts, conformance=None, clauses=(), nontrivial=None):
                 counts["mismatch_other_property"] += 1
         elif st == "fail":
             if v["why"] in clauses:
-                ctx.report(v["why"], {"why": v["why"]}, payload_of(sh, v))
+                pl = payload_of(sh, v)
+                kinds = sorted({n["k"] for n in A.walk(pl["prog"])}) if pl.get("prog") else []
+                ctx.report(v["why"], {"why": v["why"], "kinds": kinds}, pl)
         if st in ("ok", "na", "fail", "mismatch"):
             if "case" in m:
                 ctx.cov["traces_validated_against_impl"] += 1
